@@ -59,6 +59,7 @@ def pick_offset(rng):
 
 def render_datetime(v, rng):
     """v: aware UTC datetime (ms precision) -> one of the OFX notations denoting the same instant"""
+    v = v.astimezone(datetime.timezone.utc)      # the typed value is an instant; the zone it is WRITTEN in is chosen here
     off = pick_offset(rng)
     local = v + datetime.timedelta(minutes=off)
     ms = v.microsecond // 1000
@@ -77,6 +78,8 @@ def render_datetime(v, rng):
 
 
 def render_time(v, rng):
+    vu = datetime.datetime(2000, 6, 15, v.hour, v.minute, v.second, v.microsecond, tzinfo=v.tzinfo).astimezone(datetime.timezone.utc)
+    v = vu.timetz()
     off = pick_offset(rng)
     base = datetime.datetime(2000, 6, 15, v.hour, v.minute, v.second, v.microsecond, tzinfo=datetime.timezone.utc) + datetime.timedelta(minutes=off)
     ms = v.microsecond // 1000
@@ -194,13 +197,8 @@ def canon(ctx, v):
     if isinstance(v, int): return ("int", v)
     if isinstance(v, str): return ("str", v)
     if isinstance(v, decimal.Decimal): return ("dec", str(v.normalize() + 0) if v == 0 else str(v.normalize()), v.as_tuple().exponent)
-    if isinstance(v, datetime.datetime):
-        if v.utcoffset() is None: return ("naive-dt", v.isoformat())
-        u = v.astimezone(datetime.timezone.utc)
-        return ("dt", u.replace(tzinfo=None).isoformat(timespec="microseconds"), v.utcoffset().total_seconds())
-    if isinstance(v, datetime.time):
-        if v.utcoffset() is None: return ("naive-tm", v.isoformat())
-        return ("tm", v.replace(tzinfo=None).isoformat(timespec="microseconds"), v.utcoffset().total_seconds())
+    if isinstance(v, (datetime.datetime, datetime.time)):
+        return ctx.canon(v)       # aware values compare as instants (times: modulo 24 h), naive ones are their own kind
     return ("other", repr(v))
 
 
